@@ -127,7 +127,7 @@ Definition in_log (l : log) (i : nat) (v : val) : bool :=
 Definition all_counterexample (m : env) (e : expr) : option (list (string * val)) :=
   match e with
   | ECall _ (ECons (EComp KGen elt _ gs) ENil) _ =>
-      match first_failing py_prims elt (stored_names gs []) (ev_gens py_prims gs m) with
+      match first_failing py_prims elt (stored_names gs []) (ev_gens py_prims gs m (remove_names (stored_names gs []) m)) with
       | Ok (Some (_, inputs)) => Some inputs
       | _ => None
       end
